@@ -326,4 +326,36 @@ theorem inv_take (b : Buffer) (hi : Inv b) : Inv b.take.2 := by
   rw [ho]
   exact inv_init
 
+theorem setMode_mode (b : Buffer) (m : Mode) : (b.setMode m).mode = m := by
+  by_cases h : b.mode = m
+  · rw [setMode_same b m h]; exact h
+  · unfold Buffer.setMode; simp [h]
+
+theorem inv_write_nr (b : Buffer) (p : List Byte) (hi : Inv b) (hm : b.mode ≠ .raw) : Inv (b.write p) :=
+  inv_write b p hi (fun h => absurd h hm)
+theorem inv_writeByte_nr (b : Buffer) (x : Byte) (hi : Inv b) (hm : b.mode ≠ .raw) : Inv (b.writeByte x) :=
+  inv_writeByte b x hi (fun h => absurd h hm)
+theorem inv_writeRune_nr (b : Buffer) (r : Int) (hi : Inv b) (hm : b.mode ≠ .raw) : Inv (b.writeRune r) :=
+  inv_writeRune b r hi (fun h => absurd h hm)
+
+theorem write_mode (b : Buffer) (p : List Byte) : (b.write p).mode = b.mode := by
+  unfold Buffer.write Buffer.append Buffer.startWrite
+  split
+  · simp only [Buffer.startRedactable]; split <;> rfl
+  · rfl
+
+theorem writeRune_mode (b : Buffer) (r : Int) : (b.writeRune r).mode = b.mode := write_mode b _
+
+theorem writeByte_mode (b : Buffer) (x : Byte) : (b.writeByte x).mode = b.mode := by
+  have hs : b.startWrite.mode = b.mode := by
+    unfold Buffer.startWrite
+    split
+    · simp only [Buffer.startRedactable]; split <;> rfl
+    · rfl
+  unfold Buffer.writeByte
+  simp only
+  split
+  · rw [write_mode, hs]
+  · simp [Buffer.append, hs]
+
 end Redact
